@@ -29,6 +29,7 @@ type Program struct {
 	Sorts     *Sorts
 	Summ      map[*ssa.Function]*Summary
 	Warnings  []string
+	Lock      map[*ssa.Function]*lockInfo
 	ContractSource string // "repo" or "mirror"
 }
 
